@@ -111,6 +111,89 @@ def h_parse_tok(idx: List[int]):
         reached("break_in_if_in_for")
 
 
+# Well-nested blocks around break/continue: an optional outer wrapper, <= D opening tokens chosen by
+# symbolic index (non-loop AND loop openers), an inner statement, and all the matching {% end %}s, so the
+# "missing end" error can never mask the break/continue rule.  A newline may precede the inner statement
+# (so the reported line matters).  The text also goes through the real Template() constructor: a
+# malformed template must surface as ParseError there, never as a SyntaxError from compile().
+OUTER = [("", ""), ("{% for i in r %}", "{% end %}"), ("{% while x %}", "{% end %}"),
+         ("{% for i in r %}{% apply f %}", "{% end %}{% end %}"), ("{% apply f %}{% for i in r %}", "{% end %}{% end %}")]
+OPEN = ["{% if a %}", "{% try %}", "{% apply f %}", "{% block b %}", "{% for j in r %}", "{% while y %}"]
+INNER = ["{% break %}", "{% continue %}", "{{ v }}", "{% else %}{% break %}", "{% finally %}{% continue %}"]
+
+
+def pre_parse_nest(outer: int, opens: List[int], inner: int, nl: bool) -> bool:
+    if not (0 <= outer < len(OUTER) and len(opens) <= P.D and 0 <= inner < P.NI):
+        return False
+    for o in opens:
+        if not 0 <= o < len(OPEN):
+            return False
+    return in_shard(outer + len(OUTER) * (opens[0] if len(opens) > 0 else 0))
+
+
+def _nest_in_loop(outer, opens):
+    """reference rule, stated independently of the parser: break/continue is legal iff, walking outwards
+    from the statement, a for/while is met before any apply (apply bodies become nested functions)."""
+    chain = [0 if o == 2 else 1 if o >= 4 else 2 for o in opens]       # 0 apply, 1 loop, 2 other
+    chain = {0: [], 1: [1], 2: [1], 3: [1, 0], 4: [0, 1]}[outer] + chain
+    for k in reversed(chain):
+        if k == 1:
+            return True
+        if k == 0:
+            return False
+    return False
+
+
+@harness(pre=pre_parse_nest, quick=dict(D=2, NI=3, timeout=100, reach_timeout=100),
+         thorough=dict(D=3, NI=len(INNER), timeout=1400),
+         nshards=dict(quick=6, thorough=30),
+         reach=["break_two_deep_no_loop", "break_under_apply_in_loop", "break_two_deep_in_loop_ok",
+                "error_on_line_2"],
+         units=["template._parse", "template._TemplateReader", "template.Template.__init__"],
+         stubs=["text = OUTER[outer] open + OPEN[o] for o in opens (<= D) + optional newline + INNER[inner] + "
+                "matching ends; OUTER=%r OPEN=%r INNER=%r (first NI in quick)" % (OUTER, OPEN, INNER),
+                PRINT_STUB],
+         outside=["nesting deeper than D + 2", "openers outside the pool"])
+def h_parse_nest(outer: int, opens: List[int], inner: int, nl: bool):
+    """break/continue legality through >= 2 levels of well-nested blocks (decided for the class: every
+    combination of openers), real parser == reference and == the independent loop/apply rule."""
+    text = (OUTER[outer][0] + "".join([OPEN[o] for o in opens]) + ("\n" if nl else "") + INNER[inner]
+            + "{% end %}" * len(opens) + OUTER[outer][1])
+    r = compare_parse(text)
+    legal = True
+    if inner != 2:
+        legal = _nest_in_loop(outer, opens)
+        if inner == 3:      # else needs if/for/while/try directly around it
+            legal = legal and len(opens) > 0 and opens[-1] in (0, 1, 4, 5)
+        if inner == 4:
+            legal = len(opens) > 0 and opens[-1] == 1 and legal
+    assert (r == "ok") == legal, "%r: parser says %s, loop/apply rule says legal=%r" % (text, r, legal)
+    # the public constructor: ParseError (with the line of the statement) or a compiled template
+    try:
+        T.Template(text, name="t.txt")
+        made = None
+    except T.ParseError as e:
+        made = e
+    if legal:
+        assert made is None, "Template(%r) raised %r" % (text, made)
+    else:
+        assert made is not None, "malformed %r compiled without ParseError" % (text,)
+        want_line = 2 if nl else 1
+        assert made.lineno == want_line, "ParseError names line %r, statement is on line %d: %r" % (
+            made.lineno, want_line, text)
+        if nl:
+            reached("error_on_line_2")
+    if inner <= 1 and len(opens) == 2 and outer == 0 and opens[0] < 4 and opens[1] < 4:
+        assert not legal
+        reached("break_two_deep_no_loop")
+    if inner <= 1 and outer == 1 and len(opens) == 2 and opens[0] == 2 and opens[1] == 0:
+        assert not legal
+        reached("break_under_apply_in_loop")
+    if inner <= 1 and outer == 1 and len(opens) == 2 and opens[0] == 0 and opens[1] == 1:
+        assert legal
+        reached("break_two_deep_in_loop_ok")
+
+
 WSA = " \t\nab<"
 
 
